@@ -43,8 +43,7 @@ class ulist(list):
         if unique:
             super(ulist, self).__init__(*args)
         else:
-            orig = list(*args)
-            super(ulist, self).__init__([v for _, v in sorted([(orig.index(u), u) for u in set(orig)])])
+            super(ulist, self).__init__(dict.fromkeys(list(*args)))
 
     def _keep_unique(self):
         """
